@@ -1,12 +1,14 @@
 //! kpharness: runs the real keepass-rs library (path dependency on /repo, features save_kdbx4,_merge,totp)
 //! on generated inputs and writes one JSON case per line: abstract inputs + canonicalised real results.
 mod dump;
+mod frame;
 mod history;
 mod io;
 mod kdbx;
 mod keyop;
 mod merge;
 mod panicx;
+mod probe;
 mod totp;
 mod rng;
 mod tree;
@@ -123,6 +125,11 @@ fn main() {
         "totp" => totp::run(&mut ctx),
         "key" => keyop::run(&mut ctx),
         "merge" => merge::run(&mut ctx),
+        "probe" => probe::run(),
+        "frame-wf" => frame::run_wf(&mut ctx),
+        "frame-cred" => frame::run_cred(&mut ctx),
+        "frame-tamper" => frame::run_tamper(&mut ctx),
+        "frame-fuzz" => frame::run_fuzz4(&mut ctx),
         "selftest" => ctx.emit(serde_json::json!({"op": "selftest", "real": {"vectors": []}})),
         _ => {
             eprintln!("unknown op {}", op);
